@@ -105,6 +105,8 @@ def cast_cell(v, dt, src=None):
         return v
     if _isinstance(v, Poison):
         return v
+    if src is not None and src == dt:
+        return v
     if k in 'iu':
         if _isinstance(v, (SFloat, float)):
             if _isinstance(v, float):
